@@ -621,6 +621,11 @@ func (g *gen) opLeave() {
 	g.remove(s)
 }
 
+// killReasons: application URIs, a malformed one, and the close reasons the
+// router itself uses (a kill that borrows one of them is still a kill).
+var killReasons = []string{"app.kick", "app.bye", "bad reason", "", "wamp.close.system_shutdown", "wamp.close.close_realm",
+	"wamp.close.goodbye_and_out", "wamp.close.normal", "wamp.error.protocol_violation"}
+
 func (g *gen) opTick() {
 	ms := []int64{1, 99, 100, 900, 1000, 2499, 2500, 3000, 60000}[g.r.IntN(9)]
 	g.sc.Ops = append(g.sc.Ops, Op{Kind: "tick", Ms: ms})
@@ -694,7 +699,7 @@ func (g *gen) opMeta() {
 	case 5:
 		kw := Dict()
 		if g.chance(0.5) {
-			kw.D = append(kw.D, KV{"reason", Str(g.pick([]string{"app.kick", "bad reason", ""}))})
+			kw.D = append(kw.D, KV{"reason", Str(g.pick(killReasons))})
 		}
 		if g.chance(0.5) {
 			kw.D = append(kw.D, KV{"message", Str("go away")})
@@ -702,14 +707,14 @@ func (g *gen) opMeta() {
 		g.metaCall(s, "wamp.session.kill", List(g.anyID("sid")), kw)
 		g.tag("meta-kill")
 	case 6:
-		g.metaCall(s, "wamp.session.kill_by_authid", List(g.pick3(Str("user1"), Str("user0"), g.junk())), Val{})
+		g.metaCall(s, "wamp.session.kill_by_authid", List(g.pick3(Str("user1"), Str("user0"), g.junk())), g.pick3(Val{}, Val{}, Dict(KV{"reason", Str(g.pick(killReasons))})))
 		g.tag("meta-kill")
 	case 7:
-		g.metaCall(s, "wamp.session.kill_by_authrole", List(g.pick3(Str("anonymous"), Str("trusted"), g.junk())), Dict(KV{"reason", Str("app.bye")}))
+		g.metaCall(s, "wamp.session.kill_by_authrole", List(g.pick3(Str("anonymous"), Str("trusted"), g.junk())), Dict(KV{"reason", Str(g.pick(killReasons))}))
 		g.tag("meta-kill")
 	case 8:
 		if g.chance(0.3) {
-			g.metaCall(s, "wamp.session.kill_all", Val{}, Val{})
+			g.metaCall(s, "wamp.session.kill_all", Val{}, g.pick3(Val{}, Val{}, Dict(KV{"reason", Str(g.pick(killReasons))})))
 			g.tag("meta-kill-all")
 		}
 	case 9:
